@@ -7,6 +7,8 @@ struct Violation {
     std::string cls;       // violation class (stable, used for shrinking and known findings)
     std::string detail;    // human readable
     int op = -1;           // plan op / read index it is attributed to
+    int f_op = -3, f_w = -1; int64_t f_b = 0, f_k = -1;   // engine B: crash point that produced it
+    std::string f_alter;    // engine C: alteration that produced it
 };
 typedef std::vector<Violation> Violations;
 static inline void add_violation(Violations &v, const std::string &prop, const std::string &cls, const std::string &detail, int op = -1) {
@@ -43,6 +45,7 @@ WriterResult write_sync(const Plan &p, const std::string &path, bool log_writes)
 WriterResult write_twr(const Plan &p, const std::string &path, bool log_writes);
 // reader program; spawns a task
 RunStatus read_dump(const Plan &p, const std::string &path, Dump &d, bool with_cold);
+RunStatus mrb_driver(const Plan &p, std::vector<std::string> &errors, uint64_t *n_ok, uint64_t *n_fail, uint64_t *n_pop);
 // copy
 RunStatus copy_file(const std::string &src, const std::string &dst, int *rc);
 // build the model from the ops that were accepted (rc == 0)
